@@ -20,6 +20,11 @@ Transforms (each is exact for Python/NumPy semantics, including floating point):
   T8 chain-split    a <= x <= b -> a <= x and x <= b      (pure x)
   T9 else-wrap      if c: ...; return A  REST -> if c: ...; return A else: REST
   T10 else-unwrap   the converse
+  T11 try-finally   function body -> try: body finally: pass
+  T12 nullcontext   function body -> with contextlib.nullcontext(): body
+  T13 assert-inject always-true isinstance assertions on the parameters, a dummy local that is deleted again
+  T14 log-inject    logging.getLogger(__name__).debug(...) at the function start
+  T15 if-true       function body -> if True: body
 """
 from __future__ import annotations
 
@@ -255,6 +260,77 @@ class RenameLocals(ast.NodeTransformer):
         return node
 
 
+def _is_doc(st):
+    return isinstance(st, ast.Expr) and isinstance(st.value, ast.Constant) and isinstance(st.value.value, str)
+
+
+def _is_generator(node):
+    return any(isinstance(n, (ast.Yield, ast.YieldFrom)) for n in ast.walk(node))
+
+
+class _BodyRewriter(ast.NodeTransformer):
+    """apply self.rewrite(body_without_docstring, node) to every function body (not to generators, not to stubs)"""
+
+    def visit_FunctionDef(self, node):
+        self.generic_visit(node)
+        if _is_generator(node):
+            return node
+        doc = node.body[:1] if node.body and _is_doc(node.body[0]) else []
+        rest = node.body[len(doc):]
+        if not rest or all(isinstance(st, (ast.Pass, ast.Raise)) or _is_doc(st) for st in rest):
+            return node
+        node.body = doc + self.rewrite(rest, node)
+        return node
+
+
+class TryFinallyWrap(_BodyRewriter):
+    """body -> try: body finally: pass"""
+
+    def rewrite(self, body, node):
+        return [ast.Try(body=body, handlers=[], orelse=[], finalbody=[ast.Pass()])]
+
+
+class NullContextWrap(_BodyRewriter):
+    """body -> with contextlib.nullcontext(): body   (import added inside the function: exact no-op)"""
+
+    def rewrite(self, body, node):
+        imp = ast.ImportFrom(module="contextlib", names=[ast.alias(name="nullcontext", asname="_mm_nullcontext")], level=0)
+        w = ast.With(items=[ast.withitem(context_expr=ast.Call(func=ast.Name(id="_mm_nullcontext", ctx=ast.Load()), args=[], keywords=[]), optional_vars=None)], body=body)
+        return [imp, w]
+
+
+class AssertInject(_BodyRewriter):
+    """an always-true assertion about each parameter and a dummy local that is deleted again, at the function start"""
+
+    def rewrite(self, body, node):
+        pre = []
+        for a in node.args.args[:3]:
+            if a.arg in ("self", "cls"):
+                continue
+            pre.append(ast.Assert(test=ast.Call(func=ast.Name(id="isinstance", ctx=ast.Load()), args=[ast.Name(id=a.arg, ctx=ast.Load()), ast.Name(id="object", ctx=ast.Load())], keywords=[]), msg=None))
+        pre.append(ast.Assign(targets=[ast.Name(id="_mm_dummy", ctx=ast.Store())], value=ast.Constant(value=None), lineno=node.lineno))
+        pre.append(ast.Delete(targets=[ast.Name(id="_mm_dummy", ctx=ast.Del())]))
+        return pre + body
+
+
+class LogInject(_BodyRewriter):
+    """logging.getLogger(__name__).debug("...", <first parameter>) at the function start (no handler: no output)"""
+
+    def rewrite(self, body, node):
+        imp = ast.Import(names=[ast.alias(name="logging", asname="_mm_logging")])
+        args = [ast.Constant(value="enter %s")]
+        args.append(ast.Constant(value=node.name))
+        call = ast.Expr(value=ast.Call(func=ast.Attribute(value=ast.Call(func=ast.Attribute(value=ast.Name(id="_mm_logging", ctx=ast.Load()), attr="getLogger", ctx=ast.Load()), args=[ast.Name(id="__name__", ctx=ast.Load())], keywords=[]), attr="debug", ctx=ast.Load()), args=args, keywords=[]))
+        return [imp, call] + body
+
+
+class IfTrueWrap(_BodyRewriter):
+    """body -> if True: body"""
+
+    def rewrite(self, body, node):
+        return [ast.If(test=ast.Constant(value=True), body=body, orelse=[])]
+
+
 TRANSFORMS = {
     "T0-reprint": None,
     "T1-mult-swap": MultSwap,
@@ -267,6 +343,11 @@ TRANSFORMS = {
     "T8-chain-split": ChainSplit,
     "T9-else-wrap": ElseWrap,
     "T10-else-unwrap": ElseUnwrap,
+    "T11-try-finally": TryFinallyWrap,
+    "T12-nullcontext": NullContextWrap,
+    "T13-assert-inject": AssertInject,
+    "T14-log-inject": LogInject,
+    "T15-if-true": IfTrueWrap,
 }
 
 
